@@ -3,12 +3,16 @@ use crate::collections::Map;
 use std::collections::hash_map::Entry;
 
 pub struct SearchTableSet {
+    /// Prefix of table names (the lexer name), to avoid name clashes when multiple lexers are
+    /// defined in the same module
+    prefix: String,
     tables: Map<Vec<(char, char)>, syn::Ident>,
 }
 
 impl SearchTableSet {
-    pub fn new() -> SearchTableSet {
+    pub fn new(prefix: String) -> SearchTableSet {
         SearchTableSet {
+            prefix,
             tables: Default::default(),
         }
     }
@@ -19,7 +23,7 @@ impl SearchTableSet {
             Entry::Occupied(entry) => entry.get().clone(),
             Entry::Vacant(entry) => {
                 let ident = syn::Ident::new(
-                    &format!("RANGE_TABLE_{}", n_tables),
+                    &format!("{}_RANGE_TABLE_{}", self.prefix, n_tables),
                     proc_macro2::Span::call_site(),
                 );
                 entry.insert(ident.clone());
